@@ -377,3 +377,114 @@ _jobs_records = jobs
 
 def jobs(tier):
     return _jobs_records(tier) + [(h_list_endlist, (), 1800), (h_option_step, ('null',), 600), (h_option_step, ('integer',), 600)]
+
+
+# ------------------------------------------------------------------------------------------------ integers become floats when mixed with floats
+I64B = 'src/libawkward/builder/Int64Builder.cpp'
+F64B = 'src/libawkward/builder/Float64Builder.cpp'
+
+
+@guard
+def h_int64_real(n):
+    """Int64Builder::real(x) with n integers appended so far: the builder that takes over is a Float64Builder holding the n integers converted
+    to double, in order, followed by x (n + 1 entries); the integer builder's own buffer - which earlier snapshots share - is not modified"""
+    from .cpp01 import struct_of
+    mod = module_of(I64B)
+    fo, sz, al, fields = mod.types.struct_layout(struct_of(mod, '_ZN7awkward12Int64Builder4realEd'))
+    stubs = dict(COMMON_STUBS)
+    m = MCtx([I64B, F64B, GB, 'src/libawkward/builder/ArrayBuilderOptions.cpp', 'src/libawkward/kernel-dispatch.cpp'], unwind=n + 8, stubs=stubs)
+    res, x = m.bv('reserved'), m.fp('x')
+    m.assume(res > n, res <= 2 ** 20)
+    m.record('ctrl', {0: (NULL, 8), 8: (z3.BitVecVal(1, 32), 4), 12: (z3.BitVecVal(1, 32), 4)})
+    st0 = State({}, m.mem, z3.BoolVal(True))
+    vt = m.eng.global_ptr(st0, '@_ZTVN7awkward12Int64BuilderE', mod)
+    cells = {0: (Ptr(vt.obj, 16), 8), 8: (Ptr('ib', 0), 8), 16: (Ptr('ctrl', 0), 8), fo[1]: (BV(8), 8), fo[1] + 8: (z3.FPVal(1.5, z3.Float64()), 8)}
+    a0 = _growable(m, 'ints', BV(n), res, fo[2], cells, 'ib')
+    this = m.record('ib', cells)
+    m.record('ret', {})
+    out = m.call('_ZN7awkward12Int64Builder4realEd', [Ptr('ret', 0), this, x])
+    obls = [('the step does not raise', out.raised)]
+    rp = m.cell('ret', 0)
+    cs = [(g, q) for g, q in ptr_cases(rp) if q.obj is not None] if rp is not None else []
+    if len(cs) != 1:
+        raise Unsupported('returned builder pointer has %d cases' % len(cs))
+    nb = out.mem.o[cs[0][1].obj]
+    base = cs[0][1].off
+    f64mod = module_of(F64B)
+    fo2, _, _, _ = f64mod.types.struct_layout(struct_of(f64mod, '_ZN7awkward14Float64Builder4realEd'))
+    vp = nb.cells.get(base)
+    vcls = [q.obj for g, q in ptr_cases(vp[0]) if q.obj is not None] if vp else []
+    if not vcls or 'Float64Builder' not in str(vcls[0]):
+        obls.append(('the builder that takes over is a Float64Builder', z3.BoolVal(True)))
+        return mdischarge(m, 'Int64Builder::real after %d integers' % n, obls, [], replay=None)
+    bp = nb.cells[base + fo2[2] + 16][0]
+    ln = nb.cells[base + fo2[2] + 32][0]
+    bcs = [(g, q) for g, q in ptr_cases(bp) if q.obj is not None]
+    if len(bcs) != 1:
+        raise Unsupported('float buffer pointer has %d cases' % len(bcs))
+    fa = out.mem.o[bcs[0][1].obj]
+    if tuple(fa.kind) != ('f', 64):
+        raise Unsupported('float buffer kind %s' % (fa.kind,))
+    olds = [z3.Select(a0, BV(i)) for i in range(n)]
+    obls.append(('the float builder holds one more entry', ln != n + 1))
+    for i in range(n):
+        got = z3.Select(fa.arr, z3.simplify(bcs[0][1].off + i))
+        obls.append(('entry %d is the integer converted to double' % i, z3.fpToIEEEBV(got) != z3.fpToIEEEBV(z3.fpSignedToFP(z3.RNE(), olds[i], z3.Float64()))))
+    gotx = z3.Select(fa.arr, z3.simplify(bcs[0][1].off + n))
+    obls.append(('the last entry is the appended real number', z3.And(z3.Not(z3.fpIsNaN(x)), z3.fpToIEEEBV(gotx) != z3.fpToIEEEBV(x))))
+    a1 = out.mem.o['ints'].arr
+    for i in range(n):
+        obls.append(('integer %d of the old buffer is unchanged' % i, z3.Select(a1, BV(i)) != olds[i]))
+    obls.append(('the old builder keeps its length', out.mem.o['ib'].cells[fo[2] + 32][0] != n))
+
+    def replay(model, ent):
+        import subprocess, os, json, struct
+        ev = lambda t: model.eval(t, model_completion=True)
+        ints = [ev(o).as_signed_long() for o in olds]
+        xb = ev(z3.fpToIEEEBV(x)).as_long()
+        drv = NATIVE_PREFIX.replace('#include "awkward/builder/GrowableBuffer.h"', '#include "awkward/builder/GrowableBuffer.h"\n#include "awkward/builder/Int64Builder.h"\n#include "awkward/builder/Float64Builder.h"') + r'''
+int main(int argc, char** argv) {
+  int n = atoi(argv[1]); unsigned long long xb = strtoull(argv[2], nullptr, 10); double x; memcpy(&x, &xb, 8);
+  ArrayBuilderOptions opts(8, 1.5);
+  BuilderPtr b = Int64Builder::fromempty(opts);
+  std::vector<int64_t> ints;
+  for (int i = 0; i < n; i++) { ints.push_back(atoll(argv[3 + i])); b = b->integer(ints.back()); }
+  Int64Builder* ib = dynamic_cast<Int64Builder*>(b.get());
+  BuilderPtr f = b->real(x);
+  Float64Builder* fb = dynamic_cast<Float64Builder*>(f.get());
+  int bad = 0;
+  if (fb == nullptr) { printf("bad=64\n"); return 1; }
+  if (fb->buffer_.length() != n + 1) bad |= 1;
+  for (int i = 0; i < n && i < fb->buffer_.length(); i++) if (fb->buffer_.ptr().get()[i] != (double)ints[i]) bad |= 2;
+  if (fb->buffer_.length() > n && memcmp(&fb->buffer_.ptr().get()[n], &x, 8) != 0 && x == x) bad |= 4;
+  for (int i = 0; i < n; i++) if (ib->buffer_.ptr().get()[i] != ints[i]) bad |= 8;
+  if (ib->buffer_.length() != n) bad |= 16;
+  printf("bad=%d\n", bad);
+  return bad ? 1 : 0;
+}
+'''
+        srcs = [I64B, F64B, GB, OB, 'src/libawkward/builder/Builder.cpp', 'src/libawkward/builder/ArrayBuilderOptions.cpp']
+        try:
+            exe = fullnative_link(drv)
+        except Exception as e:      # noqa
+            return False, 'replay driver did not build: %s' % str(e)[-300:], {}
+        r = subprocess.run([exe, str(n), str(xb)] + [str(v) for v in ints], capture_output=True, text=True, timeout=30,
+                           env=dict(os.environ, ASAN_OPTIONS='detect_leaks=0', UBSAN_OPTIONS='halt_on_error=1:exitcode=87'), errors='replace')
+        payload = dict(integers=ints, x_bits=xb, native=r.stdout.strip())
+        if r.returncode != 0:
+            return True, 'integers %s then real(bits %#x): native builders give %s (1 length, 2 converted entry, 4 appended value, 8/16 old buffer modified)' % (ints, xb, r.stdout.strip() or r.stderr[-200:]), payload
+        return False, 'native builders agree (%s)' % r.stdout.strip(), payload
+    return mdischarge(m, 'Int64Builder::real after %d integers' % n, obls, [], replay=replay, prefer=[res <= 16],
+                      extra=dict(bounds='%d integers (any values), any real x, reserved capacity up to 2^20' % n))
+
+
+def fullnative_link(text):
+    from . import fullnative
+    return fullnative.link_driver(text, 'builder')
+
+
+_jobs_steps = jobs
+
+
+def jobs(tier):
+    return _jobs_steps(tier) + [(h_int64_real, (n,), 900) for n in ((0, 2) if tier == 'quick' else (0, 1, 2, 3, 4))]
